@@ -32,9 +32,9 @@ def scenarios(rng, tier):
                 elif r < 0.24: s.frame(0, emit(M, own, [(1, 0, mac(7), mac(8))], seq=9, esrc=ME))
                 elif r < 0.25: s.frame(0, generic(rng.randrange(256), rng.choice([1, 2]), a, a, own, own))
             nq = kk // cap + 1 + rng.choice([0, 1]) if rng.random() < 0.8 else 1
-            reobs = srcs[-3:] + srcs[:2]
+            reobs = list(reversed(srcs[-3:])) + srcs[:2]      # the most recently recorded station first
             for q in range(nq):
-                if q == 1 and reobs and rng.random() < 0.7:
+                if q == 1 and reobs and rng.random() < 0.85:
                     # stations already reported are seen again between two Queries (the most recently recorded ones first):
                     # a new observation each, to be reported again
                     for x in reobs[:rng.choice([1, 2, 5])]: s.frame(0, probe(mac(x), own, mac(x), own))
